@@ -52,7 +52,7 @@ func c15writeRouting(dir string, v int, torn bool) {
 	cc := map[string]interface{}{}
 	for _, cl := range c15clusters {
 		cc[cl] = map[string]interface{}{
-			"BackendConf": map[string]interface{}{"TimeoutConnSrv": 500, "TimeoutResponseHeader": 2000, "MaxIdleConnsPerHost": 1 + v%3, "RetryLevel": 0},
+			"BackendConf": map[string]interface{}{"TimeoutConnSrv": 500, "TimeoutResponseHeader": c15hdrTimeout(v), "MaxIdleConnsPerHost": 1 + v%3, "RetryLevel": 0},
 			"CheckConf":   map[string]interface{}{"Schem": "tcp", "FailNum": 1000, "CheckInterval": 1000},
 			"GslbBasic":   map[string]interface{}{"CrossRetry": 1, "RetryMax": 1 + v%4, "HashConf": map[string]interface{}{"HashStrategy": 1, "SessionSticky": false}},
 			"ClusterBasic": map[string]interface{}{"TimeoutReadClient": 30000, "TimeoutWriteClient": 60000, "TimeoutReadClientAgain": 30000,
@@ -67,6 +67,11 @@ func c15writeRouting(dir string, v int, torn bool) {
 		ioutil.WriteFile(fn, b[:len(b)/2], 0644)
 	}
 }
+
+// response-header timeout of routing version v (ms); backends answer either at once or after c15slowMs
+func c15hdrTimeout(v int) int { return []int{5000, 200}[v%2] }
+
+const c15slowMs = 600
 
 func c15subs(u int) []int { return []int{1, 2 + u%2} }
 
@@ -116,6 +121,7 @@ type c15req struct {
 	inv, ret uint64
 	status   int
 	backend  string // X-Backend of the response
+	slow     bool   // the backend answers after c15slowMs
 	raw      string
 }
 
@@ -127,6 +133,7 @@ type c15 struct {
 	reqs    [][]c15req    // per client
 	plan    [][]c15reload
 	nreq    []int
+	slow    [][]bool
 }
 
 //go:norace
@@ -156,7 +163,9 @@ func (h *c15) backendLoop(l *simnet.Listener, addr string) func() {
 						return
 					}
 					buf = buf[n:]
-					_ = m
+					if strings.Contains(m.Target, "slow") {
+						simrt.Sleep(c15slowMs * time.Millisecond)
+					}
 					body := "ok " + addr
 					fmt.Fprintf(conn, "HTTP/1.1 200 OK\r\nX-Backend: %s\r\nContent-Length: %d\r\n\r\n%s", addr, len(body), body)
 				}
@@ -200,9 +209,13 @@ func (h *c15) client(ci int) func() {
 		tmp := make([]byte, 2048)
 		for k := 0; k < h.nreq[ci]; k++ {
 			id := ci*100 + k
-			r := c15req{conn: ci, id: id}
-			r.inv = h.s.Note("inv", fmt.Sprintf("request %d", id))
-			if _, err := conn.Write([]byte(fmt.Sprintf("GET /r%d HTTP/1.1\r\nHost: h.example\r\n\r\n", id))); err != nil {
+			r := c15req{conn: ci, id: id, slow: h.slow[ci][k]}
+			r.inv = h.s.Note("inv", fmt.Sprintf("request %d slow=%v", id, r.slow))
+			path := fmt.Sprintf("/r%d", id)
+			if r.slow {
+				path += "/slow"
+			}
+			if _, err := conn.Write([]byte(fmt.Sprintf("GET %s HTTP/1.1\r\nHost: h.example\r\n\r\n", path))); err != nil {
 				break
 			}
 			var raw []byte
@@ -304,6 +317,11 @@ func runC15(s *simrt.Sim) {
 	h.reqs = make([][]c15req, nconn)
 	for ci := 0; ci < nconn; ci++ {
 		h.nreq = append(h.nreq, tp.Range(1, 6, "n_requests"))
+		sl := make([]bool, h.nreq[ci])
+		for k := range sl {
+			sl[k] = faults && tp.Chance(1, 4, "slow_backend")
+		}
+		h.slow = append(h.slow, sl)
 	}
 	var tasks []*simrt.Task
 	for i := 0; i < nrel; i++ {
@@ -394,6 +412,24 @@ func (h *c15) check() {
 	for ci, list := range h.reqs {
 		for _, r := range list {
 			s.Checked(1)
+			if r.slow {
+				// the timeout in force is the one of the snapshot the request started with
+				rv := admissible("routing", r.inv, r.ret)
+				okOutcome := false
+				for v := range rv {
+					if (r.status == 200) == (c15hdrTimeout(v) > c15slowMs) {
+						okOutcome = true
+					}
+				}
+				if !okOutcome {
+					s.FailK("C15.inflight", "outcome-of-no-admissible-version", "request %d (backend answers after %d ms) ended with status %d; response-header timeouts of the routing versions admissible during the request: %v", r.id, c15slowMs, r.status, timeoutsOf(rv))
+					return
+				}
+				s.Probe("c15_slow_request_checked")
+				if r.status != 200 {
+					continue
+				}
+			}
 			if r.status != 200 || r.backend == "" {
 				s.FailK("C15.served", "request-failed-during-reload", "conn %d request %d: every configuration version can serve it, yet the client got status %d (%q)", ci, r.id, r.status, r.raw)
 				return
@@ -495,4 +531,12 @@ func (h *c15) finalState() bool {
 	}
 	s.Probe("c15_final_state_checked")
 	return true
+}
+
+func timeoutsOf(m map[int]bool) []string {
+	var r []string
+	for _, v := range keysOf(m) {
+		r = append(r, fmt.Sprintf("r%d=%dms", v, c15hdrTimeout(v)))
+	}
+	return r
 }
